@@ -29,7 +29,7 @@ P = {
          'reply layouts transcribe the pinned commit; kernel float primitives for amps'),
  "C09": ("proof", 'Theorems for every reply script: the three reply parsers raise only what the API wraps; get_state, get_breeze_state and get_shutter_state end in a response or RuntimeError, write one frame and raise on an empty login reply, two frames otherwise; every type-2 operation and thermostat control raise RuntimeError after the login frame on an empty login reply; successful iff non-empty. Each run drives the real methods with every prefix of valid replies, random and corrupted replies, and all thermostat request shapes with an empty reply at each step.', "5 C09 / 12.2",
          'the exception class each Python primitive raises is the modelled part, validated by the malformed streams'),
- "C10": ("proof", 'Theorems for every zone table: a reply holding whole 16-byte records is parsed record by record with the first record of a slot id winning (C10_list, C10_first_record_wins, C10_one_schedule_per_slot); every whole record with a decodable day mask parses to its id, recurrence flag, day set and local start / end, duration and display never failing (C10_record_always_parses, C10_record); chunking and region lemmas; C10_created_schedule_reads_back: for every zone table, instant, pair of clock times that exist today and non-empty duplicate-free day collection, the values create_schedule's encoders put into the record (C11's instants, C12's mask) are read back from a record holding them, in any slot at any later moment, as exactly that day set and those HH:MM times. Each run: replies built by the Spec encoder parsed by the real code under a virtual clock in several zones and judged by a zoneinfo oracle; create_schedule -> captured record -> listed back.', "5 C10 / 12.2",
+ "C10": ("proof", 'Theorems for every zone table: a reply holding whole 16-byte records is parsed record by record with the first record of a slot id winning (C10_list, C10_first_record_wins, C10_one_schedule_per_slot); every whole record with a decodable day mask parses to its id, recurrence flag, day set and local start / end, duration and display never failing (C10_record_always_parses, C10_record); chunking and region lemmas; C10_created_schedule_reads_back: for every zone table, instant, pair of clock times that exist today and non-empty duplicate-free day collection, the values the encoders of create_schedule put into the record (the instants of C11, the mask of C12) are read back from a record holding them, in any slot at any later moment, as exactly that day set and those HH:MM times. Each run: replies built by the Spec encoder parsed by the real code under a virtual clock in several zones and judged by a zoneinfo oracle; create_schedule -> captured record -> listed back.', "5 C10 / 12.2",
          'relative to trusted zone data (TZif); the create/read-back half is the composition of C11 and C12 theorems plus the per-run stream'),
  "C11": ("proof", "Theorems for every zone table, instant and existing minute: the encoder returns a pre-image (mktime modelled as a search "
          "over the zone's offsets) and decode(encode) is the identity; per run 8+ zones x DST dates x minutes under TZ + virtual clock, "
